@@ -65,15 +65,17 @@ def clipAt [LE R] [DecidableLE R] (lo hi : R) (a : R) : R :=
   let t := if a ≤ lo then lo else a
   if hi ≤ t then hi else t
 
-/-- `numpy.clip(x, min, max)` with scalar bounds, either possibly `None` (tools.py l.721-735):
-`t = lo if x < lo else x; hi if t > hi else t` (ties keep `x`, NaN propagates) -/
-def clipOpt [LT R] [DecidableLT R] (lo hi : Option R) (a : R) : R :=
-  let t := match lo with
-    | some l => if a < l then l else a
-    | none => a
-  match hi with
-  | some h => if h < t then h else t
-  | none => t
+/-- `numpy.clip(x, min, max)` with scalar bounds, either possibly `None` (tools.py l.721-735).
+Both given: `t = lo if x < lo else x; hi if t > hi else t` (ties keep `x`).  One `None`: numpy dispatches to
+`maximum(x, lo)` / `minimum(x, hi)` (ties return the bound).  NaN in `x` propagates in every case. -/
+def clipOpt [LT R] [DecidableLT R] [LE R] [DecidableLE R] (lo hi : Option R) (a : R) : R :=
+  match lo, hi with
+  | some l, some h =>
+    let t := if a < l then l else a
+    if h < t then h else t
+  | some l, none => if a ≤ l then l else a
+  | none, some h => if h ≤ a then h else a
+  | none, none => a
 
 /-- Python `a == b` on numbers, from `≤` only (false on NaN, true on `0.0 == -0.0`) -/
 def eqR [LE R] [DecidableLE R] (a b : R) : Bool := decide (a ≤ b) && decide (b ≤ a)
@@ -362,7 +364,7 @@ def imposeAs [Add R] (mask : List (Int × Int)) (offset : R) (x : List R) : Exce
 
 /-! ## clipped / suppressed / masked (tools.py l.505-735) -/
 
-def clipped [LT R] [DecidableLT R] (lo hi : Option R) (x : List R) : List R := x.map (clipOpt lo hi)
+def clipped [LT R] [DecidableLT R] [LE R] [DecidableLE R] (lo hi : Option R) (x : List R) : List R := x.map (clipOpt lo hi)
 
 /-- `suppress(x, tol, clip=True)`: `x[abs(x) < tol] = 0.0` -/
 def suppress [LT R] [DecidableLT R] [Neg R] [OfNat R 0] (tol : R) (x : List R) : List R :=
